@@ -338,7 +338,8 @@ DESER_CONSTS = "CONSTANTS\n Mode = \"total\"\n L = %d\n Alphabet = %s\n Discipli
 DESER_PARTS = 8
 DESER_READER = {"Num": "ReadNum", "Bool": "ReadBool", "Byte": "ReadByte", "Bytes": "ReadBytes", "InPlace": "ReadBytesInPlace",
                 "VarBytes": "ReadVariableByteSlice", "String": "ReadString", "U256": "ReadUint256", "Time": "ReadTime",
-                "PayLen": "ReadPayloadLength", "Skip": "Skip", "Prefix": "CheckTypePrefix", "Seq": "ReadSequenceOfObjects", "All": "ConsumedAll"}
+                "PayLen": "ReadPayloadLength", "Skip": "Skip", "Prefix": "CheckTypePrefix", "Seq": "ReadSequenceOfObjects", "All": "ConsumedAll",
+                "Obj": "ReadObject", "Payload": "ReadPayload", "Objs": "ReadSliceOfObjects"}
 
 
 def deser_gen(ctx):
@@ -352,7 +353,7 @@ def deser_gen(ctx):
 
 def deser_culprit(prog):
     for o in prog:
-        if o["op"] in ("VarBytes", "String", "Seq"):
+        if o["op"] in ("VarBytes", "String", "Seq", "Payload", "Objs", "Obj"):
             return DESER_READER[o["op"]]
     return DESER_READER[prog[-1]["op"]]
 
@@ -372,8 +373,9 @@ def deser_classify(rec, want):
         return name + ":writer-accepts-out-of-range-length", "the Serializer chain accepted values %s that violate min/max/prefix range" % json.dumps(rec["v"])[:100], case
     if rec["k"] == "rt" and rec["w"] != want["w"]:
         return name + ":bytes-differ-from-model", "the Serializer chain wrote %s, the model's layout is %s" % (rec["w"][:40], want["w"][:40]), case
-    if rec["k"] == "mut" and rec["alloc"] > 65536 + 16 * len(data):
-        return name + ":alloc-from-prefix", "%s allocated %d bytes (bound %d)" % (call, rec["alloc"], 65536 + 16 * len(data)), case
+    bound = 65536 + 16 * len(data) + (256 * len(data) if any(o["op"] in ("Obj", "Payload", "Objs") for o in prog) else 0)
+    if rec["k"] == "mut" and rec["alloc"] > bound:
+        return name + ":alloc-from-prefix", "%s allocated %d bytes (bound %d)" % (call, rec["alloc"], bound), case
     if rec["iters"] > len(data) + 1:
         return name + ":iterates-beyond-input", "%s ran %d element iterations" % (call, rec["iters"]), case
     if got["off"] > len(data):
@@ -398,7 +400,7 @@ def deser_units():
         "mc_rt": McUnit(SUB, "Deser", name="Deser:mc:roundtrip"),
         "mc_tot": McUnit(SUB, "Deser", cfgkind="total", name="Deser:mc:total-all-strings"),
         "mc_neg": McUnit(SUB, "Deser", cfgkind="allocfirst", name="Deser:mc:alloc-first-control", expect="AllocBounded"),
-        "table": TableUnit("Deser:table", "deser-table", deser_gen, expect_rows=lambda ctx: 43 * 5461 + 300),
+        "table": TableUnit("Deser:table", "deser-table", deser_gen, expect_rows=lambda ctx: 56 * 5461 + 3 * 995 + 300),
         "records": RecordsUnit("Deser:records", "deser-records", "DeserTrace", deser_classify, n=(1500, 20000),
                                consts=DESER_CONSTS % (0, "{0}")),
     }
